@@ -61,13 +61,21 @@ pub fn specs() -> Vec<PropSpec> {
         prop!("C08", coll!("C08", 8_000_000, 100_000_000), Stage { engine: || Box::new(bsv_coll::plain::PlainEngine), quick_cases: 4_000_000, thorough_cases: 50_000_000 });
         prop!("C15", coll!("C15", 3_000_000, 40_000_000));
         prop!("C16", coll!("C16", 5_000_000, 60_000_000));
+        // collection buffers as blocks (C01: pairwise disjoint, C02: changed only through their owner)
+        if let Some(p) = v.iter_mut().find(|p| p.id == "C01") {
+            p.stages.push(coll!("C16", 2_000_000, 25_000_000));
+        }
+        if let Some(p) = v.iter_mut().find(|p| p.id == "C02") {
+            p.stages.push(coll!("C16", 2_000_000, 25_000_000));
+            p.stages.push(Stage { engine: || Box::new(bsv_coll::strings::StrEngine { split_mix: true, faulty: false }), quick_cases: 1_500_000, thorough_cases: 20_000_000 });
+        }
         if let Some(p) = v.iter_mut().find(|p| p.id == "C07") {
             p.stages.push(coll!("C07", 400_000, 5_000_000));
-            p.stages.push(Stage { engine: || Box::new(bsv_coll::strings::StrEngine { split_mix: false }), quick_cases: 1_000_000, thorough_cases: 12_000_000 });
+            p.stages.push(Stage { engine: || Box::new(bsv_coll::strings::StrEngine { split_mix: false, faulty: true }), quick_cases: 1_000_000, thorough_cases: 12_000_000 });
         }
-        prop!("C09", Stage { engine: || Box::new(bsv_coll::strings::StrEngine { split_mix: false }), quick_cases: 8_000_000, thorough_cases: 100_000_000 });
+        prop!("C09", Stage { engine: || Box::new(bsv_coll::strings::StrEngine { split_mix: false, faulty: false }), quick_cases: 8_000_000, thorough_cases: 100_000_000 });
         if let Some(p) = v.iter_mut().find(|p| p.id == "C16") {
-            p.stages.push(Stage { engine: || Box::new(bsv_coll::strings::StrEngine { split_mix: true }), quick_cases: 2_000_000, thorough_cases: 25_000_000 });
+            p.stages.push(Stage { engine: || Box::new(bsv_coll::strings::StrEngine { split_mix: true, faulty: false }), quick_cases: 2_000_000, thorough_cases: 25_000_000 });
             // into_flattened, split_at_spare(_mut) live in engine B2
             p.stages.push(Stage { engine: || Box::new(bsv_coll::plain::PlainEngine), quick_cases: 1_500_000, thorough_cases: 20_000_000 });
         }
